@@ -681,29 +681,37 @@ func r027(c *an.Ctx) {
 			continue
 		}
 		name := "(*pkg/resource." + t[0] + ")." + t[1]
-		for _, call := range an.CallsTo(fn, gauName) {
+		for _, vc := range an.CallsToDeep(fn, gauName) {
 			n++
-			in := call.(*ssa.Call)
-			// is the call on a cycle of the control flow graph?
-			cyc := false
-			seen := map[*ssa.BasicBlock]bool{}
-			var walk func(b *ssa.BasicBlock)
-			walk = func(b *ssa.BasicBlock) {
-				if b == in.Block() {
-					cyc = true
-					return
+			in, isCall := vc.Inner.(*ssa.Call)
+			if !isCall {
+				continue
+			}
+			// is the call on a cycle of the control flow graph (in the function that makes it, or - when that is a helper -
+			// is the helper called on a cycle)?
+			onCycle := func(at ssa.Instruction) bool {
+				cyc := false
+				seen := map[*ssa.BasicBlock]bool{}
+				var walk func(b *ssa.BasicBlock)
+				walk = func(b *ssa.BasicBlock) {
+					if b == at.Block() {
+						cyc = true
+						return
+					}
+					if seen[b] {
+						return
+					}
+					seen[b] = true
+					for _, s := range b.Succs {
+						walk(s)
+					}
 				}
-				if seen[b] {
-					return
-				}
-				seen[b] = true
-				for _, s := range b.Succs {
+				for _, s := range at.Block().Succs {
 					walk(s)
 				}
+				return cyc
 			}
-			for _, s := range in.Block().Succs {
-				walk(s)
-			}
+			cyc := onCycle(in) || onCycle(vc.Site)
 			usesChangeFn := false
 			for _, a := range in.Call.Args {
 				for _, src := range an.Sources(a) {
